@@ -1,1 +1,32 @@
-(* C07_est placeholder *)
+(* C07_est.v — estimators: the vectorised copies of Tilt and SAAM equal estimate() row by row; the loop-style
+   estimator FAMC on a one-row batch equal the one-sample call. *)
+From Coq Require Import Reals List Lra.
+From AhrsLib Require Import Base.
+From AhrsGen Require Import C07gen_R.
+From AhrsProps Require Import C07_tac.
+Import ListNotations.
+Open Scope R_scope.
+
+Definition nz3 (x y z : R) : Prop := 0 < x*x + y*y + z*z.
+
+Lemma saam_twin ax ay az mx my mz : nz3 ax ay az -> nz3 mx my mz ->
+  C07_saam_b1_R ax ay az mx my mz = C07_saam_s_R ax ay az mx my mz.
+Proof. unfold nz3. intros Ha Hm. unfold C07_saam_b1_R, C07_saam_s_R. twin_q. Qed.
+Lemma saam_twin2 k_ax k_ay k_az k_mx k_my k_mz ax ay az mx my mz : nz3 ax ay az -> nz3 mx my mz ->
+  C07_saam_b2_R k_ax k_ay k_az k_mx k_my k_mz ax ay az mx my mz = C07_saam_s_R ax ay az mx my mz.
+Proof. unfold nz3. intros Ha Hm. unfold C07_saam_b2_R, C07_saam_s_R. twin_q. Qed.
+Lemma tilt_nomag_twin ax ay az : nz3 ax ay az -> C07_tilt_nomag_b1_R ax ay az = C07_tilt_nomag_s_R ax ay az.
+Proof. unfold nz3. intros Ha. unfold C07_tilt_nomag_b1_R, C07_tilt_nomag_s_R. twin_q. Qed.
+Lemma tilt_angles_twin ax ay az mx my mz : nz3 ax ay az -> nz3 mx my mz ->
+  C07_tilt_angles_b1_R ax ay az mx my mz = C07_tilt_angles_s_R ax ay az mx my mz.
+Proof. unfold nz3. intros Ha Hm. unfold C07_tilt_angles_b1_R, C07_tilt_angles_s_R. twin_a2. Qed.
+Lemma tilt_angles_twin2 k_ax k_ay k_az k_mx k_my k_mz ax ay az mx my mz : nz3 ax ay az -> nz3 mx my mz ->
+  C07_tilt_angles_b2_R k_ax k_ay k_az k_mx k_my k_mz ax ay az mx my mz = C07_tilt_angles_s_R ax ay az mx my mz.
+Proof. unfold nz3. intros Ha Hm. unfold C07_tilt_angles_b2_R, C07_tilt_angles_s_R. twin_a2. Qed.
+Lemma tilt_quaternion_twin ax ay az mx my mz : nz3 ax ay az -> nz3 mx my mz ->
+  C07_tilt_quaternion_b1_R ax ay az mx my mz = C07_tilt_quaternion_s_R ax ay az mx my mz.
+Proof. unfold nz3. intros Ha Hm. unfold C07_tilt_quaternion_b1_R, C07_tilt_quaternion_s_R. twin_tilt. Qed.
+
+(* loop-style estimator: the batch calls estimate() per row; a one-row batch is the one-sample call *)
+Lemma famc_twin ax ay az mx my mz : C07_famc_b1_R ax ay az mx my mz = C07_famc_s_R ax ay az mx my mz.
+Proof. cbv delta [C07_famc_b1_R C07_famc_s_R]. cbv beta. reflexivity. Qed.
